@@ -79,6 +79,10 @@ class Ctx:
         """claim must hold on this path.  regions: {name: z3 condition} of known findings that may
         be excluded when listed in known_findings.json for this obligation."""
         claim = sc.z(claim) if not isinstance(claim, bool) else claim
+        if sc.NL_UF[0]:
+            lem = sc.nl_unit_lemmas()
+            if lem:
+                self.eng.solver.add(*lem)
         excl = []
         for name, reg in (regions or {}).items():
             if name in self.known:
@@ -177,6 +181,9 @@ def _run_obligation(args):
                 _WORLD[0].restore_constants()
             from . import symnp
             del symnp.TRIG_LOG[:]
+            del sc.NL_LOG[:]
+            sc._NL_DONE[0] = 0
+            sc.NL_UF[0] = False
             inp = ob.setup(ctx)
             ob.run(ctx, inp)
         unsupported = None
@@ -274,6 +281,8 @@ def _run_obligation(args):
         res["verdict"] = "harness_error"
         res["notes"].append("".join(traceback.format_exception(type(ex), ex, ex.__traceback__))[-3000:])
     res["wall_s"] = round(time.time() - t0, 2)
+    if os.environ.get("VERIF_PROGRESS", "1") != "0":
+        print(f"  .. {res['id']} {res['verdict']} paths={res['paths']} wall={res['wall_s']}s", file=sys.stderr, flush=True)
     return res
 
 
